@@ -23,7 +23,12 @@ trait Codec<'a> {
     fn feed_read(&mut self, d: &[u8]) -> Result<(), String>;
     /// anchored input that lives in a chunk of ANOTHER arena, which is dropped right away: only the
     /// AnchoredSlice's own anchor keeps the bytes alive
-    fn feed_foreign(&mut self, d: &[u8]) -> Result<(), String>;
+    fn feed_foreign(&mut self, d: &[u8]) -> Result<(), String> {
+        let mut other = ByteArena::new();
+        self.feed_from(&mut other, d)
+    }
+    /// anchored input read into `other` (an arena the codec does not own)
+    fn feed_from(&mut self, other: &mut ByteArena, d: &[u8]) -> Result<(), String>;
     fn finish(self) -> Result<OwningIovec<'a>, String>;
 }
 
@@ -56,10 +61,8 @@ macro_rules! impl_encoder {
             fn feed_read(&mut self, d: &[u8]) -> Result<(), String> {
                 $read(self, d)
             }
-            fn feed_foreign(&mut self, d: &[u8]) -> Result<(), String> {
-                let mut other = ByteArena::new();
+            fn feed_from(&mut self, other: &mut ByteArena, d: &[u8]) -> Result<(), String> {
                 let a = other.read_n(d, d.len(), NonZeroUsize::MAX).map_err(estr)?;
-                drop(other);
                 self.encode_anchored(a);
                 Ok(())
             }
@@ -103,10 +106,8 @@ macro_rules! impl_decoder {
             fn feed_read(&mut self, d: &[u8]) -> Result<(), String> {
                 $read(self, d)
             }
-            fn feed_foreign(&mut self, d: &[u8]) -> Result<(), String> {
-                let mut other = ByteArena::new();
+            fn feed_from(&mut self, other: &mut ByteArena, d: &[u8]) -> Result<(), String> {
                 let a = other.read_n(d, d.len(), NonZeroUsize::MAX).map_err(estr)?;
-                drop(other);
                 self.decode_anchored(a).map_err(estr)
             }
             fn finish(self) -> Result<OwningIovec<'a>, String> {
@@ -195,6 +196,8 @@ fn run_phase<'a, C: Codec<'a>>(
 ) -> Option<Vec<u8>> {
     let mut pos = 0usize;
     let mut all: Vec<u8> = Vec::new();
+    // the producer's own arena for method "shared": lives across feeds, goes away at "drop_shared" / before finish
+    let mut shared: Option<ByteArena> = None;
     LENT.with(|c| c.set((input.as_ptr() as usize, input.len())));
     for op in ops.by_ref() {
         let ev = gets(op, "ev");
@@ -202,6 +205,22 @@ fn run_phase<'a, C: Codec<'a>>(
         e.insert("run".into(), json!(run));
         e.insert("ev".into(), json!(ev));
         e.insert("ph".into(), json!(phase));
+        if (ev == "drop_shared" || ev == "finish") && shared.take().is_some() {
+            // the producer's arena is gone: everything buffered must still be backed
+            let mut e2 = Map::new();
+            e2.insert("run".into(), json!(run));
+            e2.insert("ev".into(), json!("flush"));
+            e2.insert("ph".into(), json!(phase));
+            e2.insert("panic".into(), json!(""));
+            match guarded(|| observe(&c.consumer(), full)) {
+                Ok(ob) => put_obs(&mut e2, &ob, full),
+                Err(p) => {
+                    e2.insert("panic".into(), json!(p));
+                    put_obs(&mut e2, &Obs { dangling: 0, total: 0, stable: 0, nsl: 0, pending: false, sb: vec![], lens: vec![] }, full);
+                }
+            }
+            out.emit(&Value::Object(e2));
+        }
         match ev {
             "feed" => {
                 let want = geti(op, "n");
@@ -216,6 +235,7 @@ fn run_phase<'a, C: Codec<'a>>(
                     "anchored" => c.feed_anchored(piece),
                     "read" => c.feed_read(piece),
                     "foreign" => c.feed_foreign(piece),
+                    "shared" => c.feed_from(shared.get_or_insert_with(ByteArena::new), piece),
                     _ => panic!("harness: unknown feed method {m}"),
                 });
                 e.insert("m".into(), json!(m));
@@ -355,6 +375,7 @@ fn run_phase<'a, C: Codec<'a>>(
                 }
                 out.emit(&Value::Object(e));
             }
+            "drop_shared" => {}
             "finish" => {
                 // whatever input was not fed yet is fed now, by copy, so that the run is complete
                 let r = guarded(move || {
